@@ -8,7 +8,9 @@ Copier semantics (cross-checked against /usr/bin/rsync by tools/rsync_fidelity.p
   * the file list (names + kinds) is taken at the start of each call;
   * per file the length is read when the file is opened and that many bytes are copied to a temporary name, then renamed;
   * a listed file that vanished makes the call fail (rsync exit code 24 -> BackupError);
-  * --exclude patterns without '/' are matched (fnmatch) against the basename at any depth;
+  * --include / --exclude rules in order, first match wins, with rsync's pattern semantics (anchoring '/', directory-only
+    trailing '/', '*' vs '**', basename vs whole-path matching); an option the stub does not model is a harness error,
+    never ignored;
   * an existing destination file / --link-dest candidate is reused iff it has the same length and the same mtime - rsync's
     quick check. The simulation runs far faster than the timestamp granularity of the file system, so real mtimes cannot
     be used: before every transfer (and before the SQLite dump) ``CLOCK.stamp_tree`` gives every source file a *logical*
@@ -22,6 +24,7 @@ from __future__ import annotations
 import fnmatch
 import hashlib
 import os
+import re
 import shutil
 from pathlib import Path
 
@@ -88,16 +91,83 @@ def _quick_check_same(path_a, path_b):
     return sta.st_size == stb.st_size and sta.st_mtime_ns == stb.st_mtime_ns
 
 
-def scan(src_root, excludes):
-    """Relative paths of dirs and files under src_root (a directory), honouring excludes."""
+def _rule_regex(pattern):
+    """rsync wildcard pattern -> regex source: '*' stops at '/', '**' does not, '?' is one non-slash character."""
+    out = []
+    i = 0
+    while i < len(pattern):
+        char = pattern[i]
+        if pattern.startswith('**', i):
+            out.append('.*')
+            i += 2
+            continue
+        if char == '*':
+            out.append('[^/]*')
+        elif char == '?':
+            out.append('[^/]')
+        elif char == '[':
+            end = pattern.find(']', i + 2)
+            if end < 0:
+                out.append(re.escape(char))
+            else:
+                body = pattern[i + 1 : end]
+                if body.startswith('!'):
+                    body = '^' + body[1:]
+                out.append('[' + body.replace('\\', '\\\\') + ']')
+                i = end
+        else:
+            out.append(re.escape(char))
+        i += 1
+    return ''.join(out)
+
+
+def rule_matches(pattern, rel, is_dir):
+    """Does the include / exclude pattern match the name ``rel`` (path relative to the transfer root, no leading '/')?
+    rsync(1), INCLUDE/EXCLUDE PATTERN RULES: a leading '/' anchors the pattern at the transfer root; a trailing '/' matches
+    directories only; a pattern containing '/' or '**' is matched against the whole path (its tail if not anchored),
+    any other pattern against the last component."""
+    anchored = pattern.startswith('/')
+    body = pattern[1:] if anchored else pattern
+    if body.endswith('/'):
+        if not is_dir:
+            return False
+        body = body[:-1]
+    regex = _rule_regex(body)
+    if anchored:
+        return re.fullmatch(regex, rel) is not None
+    if '/' in body or '**' in body:
+        return re.fullmatch('(?:.*/)?' + regex, rel) is not None
+    return re.fullmatch(regex, rel.rsplit('/', 1)[-1]) is not None
+
+
+def excluded(rules, rel, is_dir):
+    """First matching rule decides ('+' include, '-' exclude); a name no rule matches is transferred."""
+    for sign, pattern in rules:
+        if rule_matches(pattern, rel, is_dir):
+            return sign == '-'
+    return False
+
+
+def as_rules(excludes):
+    return [rule if isinstance(rule, (tuple, list)) else ('-', rule) for rule in excludes]
+
+
+def scan(src_root, rules, prefix=''):
+    """Relative paths of dirs and files under src_root (a directory), honouring the filter rules. ``prefix`` is the name
+    of src_root inside the transfer (rsync matches rules against names relative to the transfer root)."""
     dirs, files = [], []
     for dirpath, dirnames, filenames in os.walk(src_root):
-        dirnames[:] = sorted(d for d in dirnames if not any(fnmatch.fnmatch(d, pat) for pat in excludes))
         rel = os.path.relpath(dirpath, src_root)
+        rel = '' if rel == '.' else rel
+
+        def name_of(name, rel=rel):
+            return '/'.join(part for part in (prefix, rel, name) if part)
+
+        dirnames[:] = sorted(d for d in dirnames if not excluded(rules, name_of(d), True))  # an excluded directory is not entered
         for name in dirnames:
             dirs.append(os.path.normpath(os.path.join(rel, name)))
         for name in sorted(filenames):
-            if any(fnmatch.fnmatch(name, pat) for pat in excludes):
+            if excluded(rules, name_of(name), False):
                 continue
             files.append(os.path.normpath(os.path.join(rel, name)))
     return dirs, files
@@ -153,7 +223,8 @@ def rsync(src, dest, link_dest=None, src_trailing_slash=False, excludes=(), poin
     if not os.path.exists(src):
         raise RsyncFailed(f'source does not exist: {src}')
     top = os.path.basename(src.rstrip('/'))
-    if not src_trailing_slash and any(fnmatch.fnmatch(top, pat) for pat in excludes):
+    rules = as_rules(excludes)
+    if not src_trailing_slash and excluded(rules, top, os.path.isdir(src)):
         return stats  # the transfer root itself is excluded: nothing is sent
     if os.path.isfile(src):
         cand = os.path.join(str(link_dest), top) if link_dest else None
@@ -171,7 +242,7 @@ def rsync(src, dest, link_dest=None, src_trailing_slash=False, excludes=(), poin
     else:
         base_rel = top
         os.makedirs(os.path.join(dest, base_rel), exist_ok=True)
-    dirs, files = scan(src, excludes)
+    dirs, files = scan(src, rules, prefix=base_rel)
     for rel in dirs:
         os.makedirs(os.path.join(dest, base_rel, rel), exist_ok=True)
     failed = None
@@ -237,12 +308,19 @@ def make_manager_class(backup_utils):
 
         def call_rsync(self, src, dest, link_dest=None, src_trailing_slash=False, dest_trailing_slash=False, extra_args=None):  # pylint: disable=too-many-arguments
             del dest_trailing_slash
-            excludes = []
-            extra = list(extra_args or [])
+            excludes = []  # ordered filter rules ('+' | '-', pattern)
+            extra = [str(arg) for arg in (extra_args or [])]
             while extra:
                 arg = extra.pop(0)
-                if arg == '--exclude':
-                    excludes.append(str(extra.pop(0)))
+                if arg in ('--exclude', '--include'):
+                    excludes.append(('-' if arg == '--exclude' else '+', extra.pop(0)))
+                elif arg.startswith('--exclude=') or arg.startswith('--include='):
+                    excludes.append(('-' if arg.startswith('--exclude') else '+', arg.split('=', 1)[1]))
+                else:
+                    # never ignore an option silently: the copier would no longer behave like the program it stands for
+                    from .core import HarnessError  # pylint: disable=import-outside-toplevel
+
+                    raise HarnessError(f'rsync stub: option {arg!r} is not modelled')
             if link_dest is not None:
                 link_dest = Path(link_dest).resolve()
             if SimBackupManager.stats is None:
@@ -261,4 +339,24 @@ def make_manager_class(backup_utils):
             except RsyncFailed as exc:
                 raise backup_utils.BackupError(f'rsync failed for: {src!s} to {dest!s} ({exc})') from exc
 
+    # a programming error inside the stub must surface as a harness error, not as an exception "raised by the library"
+    # (the stub's methods are called from library frames, which is how exceptions are attributed)
+    def guarded(method):
+        def wrapper(self, *args, **kwargs):
+            try:
+                return method(self, *args, **kwargs)
+            except (backup_utils.BackupError, OSError):
+                raise
+            except Exception as exc:  # pylint: disable=broad-except
+                from .core import HarnessError, SimAbort  # pylint: disable=import-outside-toplevel
+
+                if isinstance(exc, (HarnessError, SimAbort)):
+                    raise
+                raise HarnessError(f'rsync stub failed: {exc!r}') from exc
+
+        wrapper.__name__ = method.__name__
+        return wrapper
+
+    SimBackupManager.run_cmd = guarded(SimBackupManager.run_cmd)
+    SimBackupManager.call_rsync = guarded(SimBackupManager.call_rsync)
     return SimBackupManager
